@@ -121,6 +121,43 @@ def check_secret_values(chk, v, cloud_records):
     chk.vcount(vn, "R6.base_masking_primitives", nbase)
 
 
+def check_export_statelessness(chk, v):
+    """R8: the exported bytes are a function of the exported object (size from the parameters, cloud export a prefix of the secret
+    export, the same bytes on every call): no function reachable from the export API references a mutable object with static or
+    thread storage.  Such state (a pool of recycled section objects, a cache) makes the output depend on what the process exported
+    before unless it is reset completely, which this analysis does not decide: a hit is reported as undecided (exit 2), not as a pass."""
+    import re as _re
+    from sa import api as _api
+    from rules.c06 import is_const_static
+    vn = v.name
+    pubs = _api.public_functions(v)
+    entry = [u for u, f in pubs.items() if _re.match(r"^export_", f.name)]
+    reach = v.reachable(entry)
+    chk.vcount(vn, "R8.export_entry_points", len(entry))
+    chk.vcount(vn, "R8.export_closure_functions", len(reach))
+    lib_statics = {k: s_ for k, s_ in v.statics.items() if s_["file"].startswith(("libtfhe", "include")) and s_["definition"]}
+    mutable = {k: s_ for k, s_ in lib_statics.items() if not is_const_static(s_) and not _re.search(r"\bmutex\b", s_["t"])}
+    hits = {}
+    for usr in reach:
+        f = v.defs.get(usr)
+        if f is None or not f.file.startswith(("libtfhe", "include")):
+            continue
+        for n in walk([f.d.get("body"), f.d.get("inits")]):
+            if n.get("k") == "ref" and n.get("rk") in ("global", "static_local", "class_static", "tls") and n.get("q"):
+                key = n["q"] + ("@" + f.q if n.get("rk") == "static_local" else "")
+                if key not in lib_statics and n["q"] in lib_statics:
+                    key = n["q"]
+                if key in mutable:
+                    hits.setdefault(key, []).append("%s (%s:%s)" % (f.name, f.file, n.get("l")))
+    if hits:
+        k0 = sorted(hits)[0]
+        chk.broken("C17.R8: the export API reaches mutable %s state '%s' (%s) in %s; the exported bytes then depend on the history of the process "
+                   "unless that state is reset completely, which is not decided" % (
+                       "per-thread" if mutable[k0].get("tls") else "static", k0, mutable[k0]["t"][:40], hits[k0][0]))
+    chk.proved("R8", "no function reachable from the export API references mutable static or per-thread state", where="libtfhe/tfhe_io.cpp",
+               detail="%d functions reachable from %d export entry points" % (len(reach), len(entry)), variant=vn)
+
+
 def run(chk):
     prog = Program()
     chk.explanation = (
@@ -143,6 +180,7 @@ def run(chk):
         for need in SECRET_RECORDS + (CLOUD, SECRET_SET):
             if need not in v.records:
                 chk.broken("record %s not found in %s" % (need, vn))
+        check_export_statelessness(chk, v)
         # R1 ------------------------------------------------------------------
         seen, parent = type_closure(v, CLOUD)
         chk.set_count("R1.records_in_cloud_closure", len(seen))
